@@ -729,6 +729,7 @@ func buffersStartEmpty(c *Ctx, r *Report, rule string, fns ...*ssa.Function) {
 		if n == 0 {
 			// assembled by append: the slice every return hands out must grow from an empty one
 			var rootEmpty func(v ssa.Value, depth int) bool
+			seenPhi := map[*ssa.Phi]bool{}
 			rootEmpty = func(v ssa.Value, depth int) bool {
 				if depth > 64 {
 					return false
@@ -745,6 +746,10 @@ func buffersStartEmpty(c *Ctx, r *Report, rule string, fns ...*ssa.Function) {
 						return ok && k == 0
 					}
 				case *ssa.Phi:
+					if seenPhi[x] {
+						return true // loop-carried: decided by the other edges
+					}
+					seenPhi[x] = true
 					for _, e := range x.Edges {
 						if !rootEmpty(e, depth+1) {
 							return false
@@ -754,6 +759,14 @@ func buffersStartEmpty(c *Ctx, r *Report, rule string, fns ...*ssa.Function) {
 				case *ssa.Call:
 					if b, ok := x.Call.Value.(*ssa.Builtin); ok && b.Name() == "append" {
 						return rootEmpty(x.Call.Args[0], depth+1)
+					}
+					// the octets another encoder of the format returned (checked on its own)
+					if sc := x.Call.StaticCallee(); sc != nil {
+						for _, g := range fns {
+							if g == sc {
+								return true
+							}
+						}
 					}
 					if o := calleeObj(&x.Call); o != nil && o.Pkg() != nil && o.Pkg().Path() == "encoding/binary" && strings.HasPrefix(o.Name(), "Append") && len(x.Call.Args) >= 2 {
 						return rootEmpty(x.Call.Args[1], depth+1)
@@ -772,6 +785,17 @@ func buffersStartEmpty(c *Ctx, r *Report, rule string, fns ...*ssa.Function) {
 					}
 				}
 			}
+			// or handed to the file write directly
+			eachInstr(f, func(_ *ssa.BasicBlock, _ int, ins ssa.Instruction) {
+				if call, ok := ins.(*ssa.Call); ok {
+					if o := calleeObj(&call.Call); o != nil && o.Pkg() != nil && o.Pkg().Path() == "os" && o.Name() == "WriteFile" && len(call.Call.Args) >= 2 {
+						some = true
+						if !rootEmpty(call.Call.Args[1], 0) {
+							all = false
+						}
+					}
+				}
+			})
 			appended := false
 			eachInstr(f, func(_ *ssa.BasicBlock, _ int, ins ssa.Instruction) {
 				if call, ok := ins.(*ssa.Call); ok {
